@@ -156,26 +156,27 @@ Proof. intros. rewrite Nat.ltb_lt. apply zcount_shared. Qed.
 Section Decide.
   Variables (targets : list str) (levels sc : list Z).
 
-  Theorem decide_unknown : decide targets levels sc = Ok Unknown <-> is_max sc 0.
+  Theorem decide_unknown : decide targets levels sc = Ok Unknown <-> sc = [] \/ is_max sc 0.
   Proof.
-    unfold decide. destruct (zmax sc) as [m|] eqn:E.
+    unfold decide, zmax_default0, decide_at. destruct (zmax sc) as [m|] eqn:E.
     - apply zmax_spec in E. destruct (Z.eqb_spec m 0) as [->|Hne].
       + tauto.
-      + split.
+      + assert (sc <> []) as Hsc by (intros ->; destruct E as [[] _]).
+        split.
         * intro H. exfalso. destruct (1 <? zcount m sc)%nat.
           -- destruct (zmax (map tb_key (combine sc levels))); [|discriminate].
              destruct (1 <? zcount z (map tb_key (combine sc levels)))%nat; [discriminate|].
              eapply pick_not_unknown; exact H.
           -- eapply pick_not_unknown; exact H.
-        * intro H. exfalso. apply Hne. eapply is_max_unique; eauto.
-    - split; [discriminate|]. intros [H _]. apply zmax_none in E. subst. destruct H.
+        * intros [H|H]; [contradiction|]. exfalso. apply Hne. eapply is_max_unique; eauto.
+    - apply zmax_none in E. subst. simpl (0 =? 0). tauto.
   Qed.
 
   Theorem decide_plain : forall i t,
     decide targets levels sc = Ok (Chosen i t false) <->
     exists m, m <> 0 /\ umax sc i m /\ nth_error targets i = Some t.
   Proof.
-    intros i t. unfold decide. destruct (zmax sc) as [m|] eqn:E.
+    intros i t. unfold decide, zmax_default0, decide_at. destruct (zmax sc) as [m|] eqn:E.
     - apply zmax_spec in E. destruct (Z.eqb_spec m 0) as [->|Hne].
       + split; [discriminate|]. intros [m [Hm [Hu _]]]. apply umax_props in Hu. destruct Hu as [Hu _].
         exfalso. apply Hm. eapply is_max_unique; eauto.
@@ -192,14 +193,14 @@ Section Decide.
              destruct (umax_of_unique sc m E Hns) as [i' [Hi' Hu]]. rewrite H1 in Hi'. inversion Hi'; subst. exact Hu.
           -- intros [m' [_ [Hu Ht]]]. apply umax_props in Hu. destruct Hu as [Hu [_ Hz]].
              assert (m' = m) by (eapply is_max_unique; eauto). subst. auto.
-    - split; [discriminate|]. intros [m [_ [[Hu _] _]]]. apply zmax_none in E. subst. destruct i; discriminate.
+    - simpl (0 =? 0). split; [discriminate|]. intros [m [_ [[Hu _] _]]]. apply zmax_none in E. subst. destruct i; discriminate.
   Qed.
 
   Theorem decide_warn : forall i t,
     decide targets levels sc = Ok (Chosen i t true) <->
     exists m k, is_max sc m /\ m <> 0 /\ shared sc m /\ umax (keys_of sc levels) i k /\ nth_error targets i = Some t.
   Proof.
-    intros i t. unfold decide, keys_of. destruct (zmax sc) as [m|] eqn:E.
+    intros i t. unfold decide, zmax_default0, decide_at, keys_of. destruct (zmax sc) as [m|] eqn:E.
     - apply zmax_spec in E. destruct (Z.eqb_spec m 0) as [->|Hne].
       + split; [discriminate|]. intros [m [k [Hm [Hz _]]]]. exfalso. apply Hz. eapply is_max_unique; eauto.
       + destruct (1 <? zcount m sc)%nat eqn:Ec.
@@ -221,7 +222,7 @@ Section Decide.
           split.
           -- intro H. apply pick_spec in H. destruct H as [_ [_ H]]. discriminate.
           -- intros [m' [k [Hm [_ [Hs _]]]]]. assert (m' = m) by (eapply is_max_unique; eauto). subst. contradiction.
-    - split; [discriminate|]. intros [m [k [[H _] _]]]. apply zmax_none in E. subst. destruct H.
+    - simpl (0 =? 0). split; [discriminate|]. intros [m [k [[H _] _]]]. apply zmax_none in E. subst. destruct H.
   Qed.
 
   Theorem decide_ambiguous : forall c,
@@ -230,7 +231,7 @@ Section Decide.
                 is_max (keys_of sc levels) k /\ shared (keys_of sc levels) k /\
                 c = best_matches targets sc m.
   Proof.
-    intros c. unfold decide, keys_of. destruct (zmax sc) as [m|] eqn:E.
+    intros c. unfold decide, zmax_default0, decide_at, keys_of. destruct (zmax sc) as [m|] eqn:E.
     - apply zmax_spec in E. destruct (Z.eqb_spec m 0) as [->|Hne].
       + split; [discriminate|]. intros [m [k [Hm [Hz _]]]]. exfalso. apply Hz. eapply is_max_unique; eauto.
       + destruct (1 <? zcount m sc)%nat eqn:Ec.
@@ -250,7 +251,7 @@ Section Decide.
           split.
           -- intro H. exfalso. eapply pick_not_ambiguous; exact H.
           -- intros [m' [k [Hm [_ [Hs _]]]]]. assert (m' = m) by (eapply is_max_unique; eauto). subst. contradiction.
-    - split; [discriminate|]. intros [m [k [[H _] _]]]. apply zmax_none in E. subst. destruct H.
+    - simpl (0 =? 0). split; [discriminate|]. intros [m [k [[H _] _]]]. apply zmax_none in E. subst. destruct H.
   Qed.
 End Decide.
 
@@ -272,11 +273,12 @@ Proof.
 Qed.
 
 Theorem decide_total : forall targets levels sc,
-  sc <> [] -> length targets = length sc -> length levels = length sc ->
+  length targets = length sc -> length levels = length sc ->
   exists d, decide targets levels sc = Ok d.
 Proof.
-  intros targets levels sc Hne Ht Hl. unfold decide.
-  destruct (zmax sc) as [m|] eqn:E; [|apply zmax_none in E; contradiction].
+  intros targets levels sc Ht Hl. unfold decide, zmax_default0, decide_at.
+  destruct (zmax sc) as [m|] eqn:E; [|simpl (0 =? 0); eauto].
+  assert (sc <> []) as Hne by (intros ->; discriminate).
   apply zmax_spec in E. destruct (m =? 0); [eauto|].
   destruct (1 <? zcount m sc)%nat.
   - fold (keys_of sc levels). pose proof (keys_length sc levels Hl) as Hk.
@@ -381,25 +383,26 @@ Section DecideFor.
     - split; [discriminate | intros [t' [H _]]; discriminate].
   Qed.
 
-  Lemma is_max_zero : is_max sc 0 <-> targets <> [] /\ forall t, In t targets -> f t = 0.
+  Lemma is_max_zero : sc = [] \/ is_max sc 0 <-> forall t, In t targets -> f t = 0.
   Proof.
     unfold is_max, sc. split.
-    - intros [Hin Hle]. split; [intros ->; destruct Hin|]. intros t Ht.
-      pose proof (score_range home s t). specialize (Hle (f t) (in_map f _ _ Ht)). unfold f in *. lia.
-    - intros [Hne Hz]. split.
-      + destruct targets as [|t r]; [contradiction|]. left. apply Hz. left. reflexivity.
-      + intros x Hx. apply in_map_iff in Hx. destruct Hx as [t [<- Ht]]. rewrite (Hz t Ht). lia.
+    - intros [H|[Hin Hle]] t Ht.
+      + destruct targets; [destruct Ht | discriminate].
+      + pose proof (score_range home s t). specialize (Hle (f t) (in_map f _ _ Ht)). unfold f in *. lia.
+    - intros Hz. destruct targets as [|t r] eqn:Et; [left; reflexivity|]. right. split.
+      + left. apply Hz. left. reflexivity.
+      + intros x Hx. apply in_map_iff in Hx. destruct Hx as [t' [<- Ht]]. rewrite (Hz t' Ht). lia.
   Qed.
 
+  (* refused as unknown iff no target matches - in particular when there is no target at all *)
   Theorem decide_for_unknown :
-    decide_for home targets levels s = Ok Unknown <-> targets <> [] /\ forall t, In t targets -> f t = 0.
+    decide_for home targets levels s = Ok Unknown <-> forall t, In t targets -> f t = 0.
   Proof. unfold decide_for. rewrite decide_unknown. apply is_max_zero. Qed.
 
-  Theorem decide_for_total : targets <> [] -> length levels = length targets ->
+  Theorem decide_for_total : length levels = length targets ->
     exists d, decide_for home targets levels s = Ok d.
   Proof.
-    intros Hne Hl. unfold decide_for. apply decide_total.
-    - destruct targets; [contradiction | discriminate].
+    intros Hl. unfold decide_for. apply decide_total.
     - rewrite map_length. reflexivity.
     - rewrite map_length. exact Hl.
   Qed.
